@@ -4,14 +4,24 @@ from checks.pool_common import *
 
 def plan(tier):
     # (owner program, max threads, K, complete runs?, cube bits)   ops: 1 start(task), 2 clear(), 3 stop(), 4 wait for all submitted tasks, 5 update(); a final stop() is always appended
-    # racy configuration: scheduling points at the unsynchronised flag accesses and between predicate evaluation and blocking
+    # racy configuration: scheduling points at the unsynchronised flag accesses and between predicate evaluation and blocking.
+    # These queries are NOT split into schedule-prefix cubes: with the racy scheduling points the all-owner-first cube is 7x larger than the whole
+    # unsplit query (measured: 13.9 M vs 1.9 M SAT variables at K=20), so splitting loses.
     if tier == 'quick':
-        progs = [((1,), 1, 26, True, 4), ((1, 3, 1), 1, 22, False, 3)]
+        progs = [((1,), 1, 20, False, 0)]
     else:
-        progs = [((1,), 1, 26, True, 4), ((1, 3, 1), 1, 44, True, 4), ((1, 1), 2, 30, False, 4), ((1, 2, 1), 1, 30, False, 4), ((1, 5, 1), 1, 28, False, 4)]
+        progs = [((1,), 1, 26, True, 0), ((1, 3, 1), 1, 30, False, 0), ((1, 1), 2, 26, False, 0), ((1, 5, 1), 1, 26, False, 0)]
     qs = []
     for ops, mt, K, full, bits in progs:
-        qs += cubed(('stop_%s_mt%d_k%d' % (''.join(str(o) for o in ops), mt, K), ops, mt, K), dict(prefix_only=not full, expect_reach=('owner finished', 'all threads finished') if full else ()), bits, nthr_choices=min(mt, 2) + 1)
+        name = 'stop_%s_mt%d_k%d' % (''.join(str(o) for o in ops), mt, K)
+        if bits:
+            qs += cubed((name, ops, mt, K), dict(prefix_only=not full, expect_reach=('owner finished', 'all threads finished') if full else ()), bits, nthr_choices=min(mt, 2) + 1)
+        else:
+            qs.append(pool_query(name, ops, mt, K, prefix_only=not full, expect_reach=('owner finished', 'all threads finished') if full else ()))
+    # complete runs under the sync-only configuration (side condition: no data race, C15c): K is asserted sufficient for every schedule to terminate,
+    # so stop() returns on all of them and the post-conditions of stop() are checked on complete runs
+    for ops, K in ([((1,), 20)] if tier == 'quick' else [((1,), 20), ((1, 3, 1), 34)]):
+        qs.append(pool_query('stop_%s_mt1_sync_k%d' % (''.join(str(o) for o in ops), K), ops, 1, K, racy=False, prefix_only=False))
     return qs
 
 
